@@ -130,6 +130,6 @@ def strat_directed(tier):
 
 
 PARTS = [
-    Part("walk", run, strategy, {"quick": 1400, "thorough": 50000}, rule=RULE),
-    Part("fork-join", run, strat_directed, {"quick": 2400, "thorough": 50000}, rule="directed fork-join definitions whose join retries / iterates, with a rerun placed right after the failure"),
+    Part("walk", run, strategy, {"quick": 1400, "thorough": 14000}, rule=RULE),
+    Part("fork-join", run, strat_directed, {"quick": 2400, "thorough": 24000}, rule="directed fork-join definitions whose join retries / iterates, with a rerun placed right after the failure"),
 ]
